@@ -294,6 +294,9 @@ class Origins:
                         if pp and pp[0] == "*":
                             inner = self._mut_ref_target(pl["l"], tok, j, depth + 1)
                             if inner is None:
+                                if 1 <= pl["l"] <= self.argc and self.fn.kind != "closure":
+                                    # `&mut (*param).field`: the target is the parameter's pointee itself
+                                    return (pl["l"], pp)
                                 return None
                             return (inner[0], inner[1] + pp[1:])
                         return (pl["l"], pp)
